@@ -1,4 +1,5 @@
 import TexSoupProofs.EditLemmasHist
+import TexSoupModel.ArgsEdit
 import TexSoupProofs.EditLemmasLegacy
 /-!
 # C15 – any history of edits refines a string-splicing reference model
@@ -72,5 +73,52 @@ theorem setString_needs_group_argument : ∃ (es : List Expr) (p : Path) (s : St
 
 example : serL (applyEdit [.cmd [97] [.cmd [98] [] [] 2] [] 0] (.setString [.body 0] [115]))
     = [92, 97, 92, 98, 115] := by decide
+
+/-- Operations on a node's argument list inside a history.  Whatever the list-level effect
+`f` of the operation is (for `TexArgs` it is the effect of the same operation on a plain
+Python list, property C18), putting `f` of the current arguments on the node changes the
+serialised document exactly in the span of the arguments, which becomes the text of the new
+list, and the node at `p` is the same node with the new list. -/
+theorem args_op_splice (es : List Expr) (p : Path) (y : Expr) (f : List Expr → List Expr)
+    (hp : p ≠ []) (hy : getAtRoot es p = some y) (ha : y.hasArgs = true) :
+    ∃ k, offAtRoot es p = some k ∧
+      getAtRoot (applyEdit es (.setArgs p (f y.args))) p = some (y.setArgs (f y.args)) ∧
+      serL (applyEdit es (.setArgs p (f y.args))) =
+        (serL es).take (k + (argsPre y).length) ++
+          (serL (f y.args) ++ (serL es).drop (k + (argsPre y).length + (serL y.args).length)) :=
+  setArgs_core (f y.args) hp hy ha
+
+example : ∃ es p y, p ≠ [] ∧ getAtRoot es p = some y ∧ y.hasArgs = true :=
+  ⟨[.cmd [120] [.group .brace [.text [97] 3] 2] [] 0], [.body 0], _, by simp, rfl, rfl⟩
+
+/-- The `aop` steps of histories (`ListOp`: append/extend/insert/pop/remove/reverse/clear/slice/
+permutation/put-back, with Python's index conventions) are `setArgs` edits: when the list
+operation succeeds on the current arguments the step is `.setArgs p l` with `l` its result,
+when it raises (or there is no node at `p`) the document stays as it is.  Hence `step_refines`
+and `history_refines` cover these steps. -/
+theorem list_op_is_setArgs (es : List Expr) (p : Path) (y : Expr) (op : ListOp)
+    (hy : getAtRoot es p = some y) :
+    (∀ l, op.apply y.args = some l → applyArgsOp es p op = applyEdit es (.setArgs p l)) ∧
+    (op.apply y.args = none → applyArgsOp es p op = es) := by
+  constructor
+  · intro l hl; simp [applyArgsOp, argsOpEdit, hy, hl]
+  · intro hl; simp [applyArgsOp, argsOpEdit, hy, hl]
+
+example : serL (applyArgsOp [.cmd [120] [.group .brace [.text [97] 3] 2, .group .bracket [.text [98] 6] 5] [] 0]
+    [.body 0] .reverse) = [92, 120, 91, 98, 93, 123, 97, 125] := by decide
+
+/-- ... and on the serialised text they are the splice that `resolve` computes for that
+`setArgs`. -/
+theorem list_op_refines (es : List Expr) (p : Path) (op : ListOp) :
+    serL (applyArgsOp es p op) = match argsOpEdit es p op with
+      | some e => refStep es (serL es) e
+      | none => serL es := by
+  unfold applyArgsOp
+  cases argsOpEdit es p op with
+  | none => rfl
+  | some e => exact resolve_step es e
+
+example : argsOpEdit [.cmd [120] [.group .brace [.text [97] 3] 2] [] 0] [.body 0] (.pop 5) = none := by
+  decide
 
 end TexSoup.C15
